@@ -22,6 +22,8 @@ CLAIMED = {
    text="Self-loops, 2-cycles and 3-cycles in the update and recovery chains at every chain position are enumerated; TLC checks on the specification that no chain consumes a commitment twice or revisits one; every store is replayed on the real processor (must terminate and equal the specification's chain prefix)."),
  "C05": dict(engine="Window", design="4/C05", technique="TLA+ Window model with the protocol configuration as a variable (WindowEffect, OnlyDelta) + replay of the full product on the real processor and on the real parser with a recording time validator",
    text="The full product of operation type x anchorFrom x anchorUntil x anchoring time x time delta x decoy parameter settings is enumerated by TLC, which derives the expected state from the SidetreeCore state machine and the expected time-validator arguments; each case is executed on real code. Varying unrelated parameters independently is what exposes a window computed from the wrong parameter."),
+ "C16": dict(engine="BatchWriter", design="4/C16", technique="TLA+ property spec WriterProp + implementation-shaped BatchWriter model (TLC: invariants, refinement, liveness); TLC-generated schedules single-step the real batch.Writer through gates; traces of driven and truly concurrent real runs validated by TLC against WriterProp",
+   text="WriterProp.tla states C16 itself (FIFO prefix cuts, batch bounds, short cut only when forced or at a version boundary, partition into included/expired/deferred, nack to the head, conservation, exactly-once at rest). BatchWriter.tla models the code's steps (Len/Peek/Remove/CAS writes/anchor write/re-add/ack/nack with client adds between any two of them); TLC checks its invariants, that every step refines WriterProp, and liveness under fairness. Every complete behaviour of the bounded model becomes a schedule that drives the REAL writer + cutter + MemQueue + operation handler step by step (client adds injected inside critical windows, k-th CAS write or the anchor write failing); in addition the real writer is Start()ed with real tickers and 2-5 concurrently adding goroutines under random faults. All recorded NDJSON traces are validated by TLC against WriterProp with every invariant at every step."),
 }
 
 def check(pid, m):
